@@ -193,8 +193,9 @@ where
             nodes: extend_lpm(
                 self.table,
                 other.table,
-                self.table[self.loc.idx()].prefix_value(),
-                other.table[other.loc.idx()].prefix_value(),
+                // the longest prefix matches are established while traversing (in `extend_lpm`).
+                None,
+                None,
                 next_indices(
                     self.table,
                     other.table,
